@@ -185,6 +185,9 @@ package jsonschema
 //@   ensures annsOwned(a)
 //@   ensures a.evaluatedIndexes == old(a.evaluatedIndexes) || fresh(a.evaluatedIndexes)
 //@   ensures a.evaluatedProperties == old(a.evaluatedProperties) || fresh(a.evaluatedProperties)
+//@   ensures[C07] flags: b != nil ==> a.allItems == (old(a.allItems) || old(b.allItems)) && a.allProperties == (old(a.allProperties) || old(b.allProperties))
+//@   ensures[C07] endidx: b != nil ==> a.endIndex == ite(old(b.endIndex) > old(a.endIndex), old(b.endIndex), old(a.endIndex))
+//@   ensures[C07] nilb: b == nil ==> a.allItems == old(a.allItems) && a.allProperties == old(a.allProperties) && a.endIndex == old(a.endIndex)
 
 //@ contract merge(s, t)
 //@   requires newOrNil(s)
@@ -289,6 +292,7 @@ package jsonschema
 //@   atline[C01] "if schema.UnevaluatedProperties != nil && !anns.allProperties {" depsch7ok uses stacklen,depsch7: st.rs.draft == 0 ==> isold(schema) && isold(schema.DependencySchemas) && (forall k string {has(schema.DependencySchemas, k)} :: has(schema.DependencySchemas, k) && rvhas(instance, k) ==> vok(st, len(stk0) + 1, instance, schema.DependencySchemas[k]))
 //@   atline[C07] "anns.allProperties = true" unevpok uses stacklen,anns,unevpf,unevp: isold(schema) && new(anns) && newOrNil(anns.evaluatedProperties) && (forall k string {rvhas(instance, k)} :: rvhas(instance, k) ==> (has(anns.evaluatedProperties, k) && anns.evaluatedProperties[k]) || vok(st, len(stk0) + 1, rvget(instance, k), schema.UnevaluatedProperties))
 //@   atline[C01] "if callerAnns != nil {" cp6 uses samejv,shaped,p_props,p_req: okProps(schema, instance) && isold(schema) && isold(schema.Required) && okReq(schema, instance)
+//@   atreturn[C07] mergedflags uses anns,c1,c2: result == nil && callerAnns != nil && applies ==> new(anns) && callerAnns.allItems == (old(callerAnns.allItems) || anns.allItems) && callerAnns.allProperties == (old(callerAnns.allProperties) || anns.allProperties) && callerAnns.endIndex == ite(anns.endIndex > old(callerAnns.endIndex), anns.endIndex, old(callerAnns.endIndex))
 //@   atreturn[C01,C12] accepted uses samejv: result == nil && applies ==> jv(instance) == jv(inst0) && okType(schema, instance) && okConst(schema, instance) && okNum(schema, instance) && okStr(schema, instance) && okItems(schema, instance) && okProps(schema, instance) && okReq(schema, instance)
 //@   reject[C01] "type:" (schema.Type != "" && !tmatch(schema.Type, typeName(jv(instance)))) || (schema.Type == "" && !isnil(schema.Types) && (forall i int {schema.Types[i]} :: 0 <= i && i < len(schema.Types) ==> !tmatch(schema.Types[i], typeName(jv(instance)))))
 //@   reject[C01] "minimum:" isJNum(jv(instance)) && schema.Minimum != nil && jn(jv(instance)) < *schema.Minimum
